@@ -70,6 +70,13 @@ func (x *Exec) doCall(st *State, fr *Frame, in ssa.Instruction, cc *ssa.CallComm
 		k(st, nil)
 	case Term:
 		x.note("call of a function value loaded from memory is havoc")
+		// `assert before call VAR#k` may name the local variable that holds the function value
+		if u, ok := cc.Value.(*ssa.UnOp); ok {
+			if a, ok := u.X.(*ssa.Alloc); ok && a.Comment != "" {
+				x.assertBeforeCall(st, fr, in, a.Comment, args)
+			}
+		}
+		x.havocArgObjects(st, fr, in, args, nil)
 		k(st, x.havocResults(st, "dyn", cc.Signature()))
 	default:
 		bail("call of %T", fv)
@@ -915,6 +922,12 @@ func (x *Exec) staticCallOrd(fn *ssa.Function, in ssa.Instruction, name string) 
 					n = cc.Method.Name()
 				} else if sc := cc.StaticCallee(); sc != nil {
 					n = sc.Name()
+				} else if u, ok := cc.Value.(*ssa.UnOp); ok {
+					if a, ok := u.X.(*ssa.Alloc); ok && a.Comment != "" {
+						n = a.Comment
+					} else {
+						continue
+					}
 				} else {
 					continue
 				}
